@@ -23,7 +23,7 @@ def config_fields(b):
     t, _, _ = X.item(b.src('config.rs'), r'^pub struct RegExpConfig \{')
     return re.findall(r'^\s*pub(?:\(crate\))? ([a-z_]+):\s*([a-z0-9]+)', t, flags=re.M)
 
-def config_spec(fields, lemmas=True):
+def config_spec(fields):
     s = ''
     for m, (sp, fs) in SETTERS.items():
         s += 'pub open spec fn %s(c: RegExpConfig) -> RegExpConfig { RegExpConfig { %s, ..c } }\n' % (sp, ', '.join(f + ': true' for f in fs))
@@ -31,25 +31,29 @@ def config_spec(fields, lemmas=True):
     s += 'pub open spec fn set_min_rep(c: RegExpConfig, q: u32) -> RegExpConfig { RegExpConfig { minimum_repetitions: q, ..c } }\n'
     s += 'pub open spec fn set_min_len(c: RegExpConfig, q: u32) -> RegExpConfig { RegExpConfig { minimum_substring_length: q, ..c } }\n'
     s += 'pub open spec fn set_color(c: RegExpConfig) -> RegExpConfig { RegExpConfig { is_output_colorized: true, ..c } }\n'
+    return s
+
+def config_lemmas():
+    """(label, text) per lemma: every two setters commute, boolean setters are idempotent, valued setters: last value wins."""
     names = [sp for sp, _ in SETTERS.values()]
-    lem = ''
+    out = []
     for i, a in enumerate(names):
-        lem += 'pub proof fn commute_%s(c: RegExpConfig, sp: bool, q: u32)\n    ensures\n' % a
+        lem = 'pub proof fn commute_%s(c: RegExpConfig, sp: bool, q: u32)\n    ensures\n' % a
         lem += '        %s(%s(c)) == %s(c),\n' % (a, a, a)
         for bb in names[i + 1:]:
             lem += '        %s(%s(c)) == %s(%s(c)),\n' % (a, bb, bb, a)
-        lem += '        %s(set_escape(c, sp)) == set_escape(%s(c), sp), %s(set_min_rep(c, q)) == set_min_rep(%s(c), q), %s(set_min_len(c, q)) == set_min_len(%s(c), q),\n{}\n' % (a, a, a, a, a, a)
-    lem += 'pub proof fn last_value_wins(c: RegExpConfig, sp: bool, sp0: bool, q: u32, q0: u32)\n    ensures set_escape(set_escape(c, sp0), sp) == set_escape(c, sp), set_min_rep(set_min_rep(c, q0), q) == set_min_rep(c, q), set_min_len(set_min_len(c, q0), q) == set_min_len(c, q),\n        set_min_rep(set_min_len(c, q0), q) == set_min_len(set_min_rep(c, q), q0), set_escape(set_min_rep(c, q), sp) == set_min_rep(set_escape(c, sp), q), set_escape(set_min_len(c, q), sp) == set_min_len(set_escape(c, sp), q),\n{}\n'
-    return s + (lem if lemmas else '')
+        lem += '        %s(set_escape(c, sp)) == set_escape(%s(c), sp), %s(set_min_rep(c, q)) == set_min_rep(%s(c), q), %s(set_min_len(c, q)) == set_min_len(%s(c), q),\n{}' % (a, a, a, a, a, a)
+        out.append(('builder.commute_%s' % a, lem))
+    out.append(('builder.last_value_wins', 'pub proof fn last_value_wins(c: RegExpConfig, sp: bool, sp0: bool, q: u32, q0: u32)\n    ensures set_escape(set_escape(c, sp0), sp) == set_escape(c, sp), set_min_rep(set_min_rep(c, q0), q) == set_min_rep(c, q), set_min_len(set_min_len(c, q0), q) == set_min_len(c, q),\n        set_min_rep(set_min_len(c, q0), q) == set_min_len(set_min_rep(c, q), q0), set_escape(set_min_rep(c, q), sp) == set_min_rep(set_escape(c, sp), q), set_escape(set_min_len(c, q), sp) == set_min_len(set_escape(c, sp), q),\n{}'))
+    return out
 
 def emit_types_and_spec(b, lemmas=True):
     b.type_item('config.rs', r'^pub struct RegExpConfig \{')
     b.type_item('builder.rs', r'^pub struct RegExpBuilder \{')
     b.emit('#[verifier::external_body] pub fn vx_unreachable_panic() -> ! requires false { unimplemented!() }')
-    b.emit(config_spec(config_fields(b), lemmas))
+    b.emit(config_spec(config_fields(b)))
     if lemmas:
-        for sp, _ in SETTERS.values(): b.obligations.append(('builder.commute_%s' % sp, ['C10']))
-        b.obligations.append(('builder.last_value_wins', ['C10']))
+        for label, text in config_lemmas(): b.lemma(label, ['C10'], text)
 
 def emit_setters(b):
     IM = r'^impl RegExpBuilder \{'
